@@ -118,7 +118,11 @@ N_SEQUENCES = {"quick": 1500, "thorough": 20000}
 
 HKEYS = ("path", "level", "style", "arbitrary-fields", "format",
          "dateformat", "max-size", "old-files", "when", "interval", "delay",
-         "encoding")
+         "encoding", "formatter")
+# formatter classes / factories that render exactly as the default does:
+# naming one changes nothing the statement talks about
+FORMATTERS = ["logging.Formatter", "zcverif_dt.fmt.PlainFormatter",
+              "zcverif_dt.fmt.make"]
 
 # handler sections other than <logfile> (no file, no connection made when
 # the handler is built): they count for "one handler per handler section,
@@ -1913,6 +1917,8 @@ def format_case(n, style, arb, fmt):
         h["dateformat"] = DATEFORMATS[1 + n // 3 % 3]
     if style == "classic" and n % 5 == 0:
         del h["style"]
+    if n % 4 == 1:
+        h["formatter"] = FORMATTERS[n // 4 % len(FORMATTERS)]
     lg = {"type": "logger", "name": "zcvf%d" % n, "handlers": [h]}
     if n % 17 == 0:
         lg = {"type": "eventlog", "handlers": [h]}
